@@ -20,7 +20,7 @@ Lemma replay_append stored l r rest :
   if mem r stored then store_replay stored (tbl_of (l ++ [r])) (l ++ [r]) rest None else Err EOther.
 Proof.
   cbn [store_replay mbind stmt]. unfold append_sector.
-  destruct (mem r stored); cbn [negb lift]; [|reflexivity].
+  destruct (mem r stored); cbn [negb mbind lift]; [|reflexivity].
   rewrite tins_of_end. reflexivity.
 Qed.
 
@@ -30,7 +30,7 @@ Lemma replay_trim stored l n rest : n <= nlen l ->
 Proof.
   intros H. cbn [store_replay mbind stmt].
   replace (nlen l <? n) with false by lia.
-  rewrite trim_sectors_of by exact H. cbn [lift].
+  rewrite trim_sectors_of by exact H. cbn [mbind lift].
   rewrite list_eqb_refl. reflexivity.
 Qed.
 
@@ -44,7 +44,7 @@ Lemma replay_update stored l r i rest : i < nlen l ->
 Proof.
   intros H. cbn [store_replay mbind stmt]. unfold update_sector.
   rewrite tget_of by exact H.
-  destruct (mem r stored); cbn [negb lift]; [|reflexivity].
+  destruct (mem r stored); cbn [negb mbind lift]; [|reflexivity].
   replace (nlen l <=? i) with false by lia.
   rewrite N.eqb_refl; cbn [negb]. rewrite tset_of by exact H. reflexivity.
 Qed.
@@ -59,12 +59,12 @@ Proof.
   { subst a b; destruct (b0 <? a0); repeat split; auto. now apply swap_roots_comm. }
   destruct Hab as (Ha' & Hb' & Hsw).
   unfold swap_sectors. destruct (a =? b) eqn:E.
-  - apply N.eqb_eq in E. cbn [lift].
+  - apply N.eqb_eq in E. cbn [mbind lift].
     replace (nlen l <=? a) with false by lia. replace (nlen l <=? b) with false by lia.
     cbn [orb]. rewrite <- Hsw, <- E, swap_roots_same. reflexivity.
-  - rewrite !tget_of by assumption. cbn [lift].
+  - rewrite !tget_of by assumption. cbn [mbind lift].
     replace (nlen l <=? a) with false by lia. replace (nlen l <=? b) with false by lia.
-    cbn [orb]. rewrite !N.eqb_refl. cbn [orb andb].
+    cbn [orb]. rewrite !N.eqb_refl. cbn [orb andb]. rewrite ?orb_true_r.
     rewrite tset_of by exact Ha'.
     rewrite tset_of by (rewrite nlen_set_root; exact Hb').
     fold (swap_roots l a b). rewrite Hsw. reflexivity.
@@ -116,36 +116,47 @@ Proof. intros H S; rewrite (replay_char stored acts l l' H), S; reflexivity. Qed
 
 Definition all_stored (stored : list root) (l : list root) : bool := forallb (fun r => mem r stored) l.
 
+Lemma set_root_mid done o old r :
+  set_root (done ++ o :: old) (nlen done) r = (done ++ [r]) ++ old.
+Proof.
+  unfold set_root, nlen. rewrite Nat2N.id.
+  induction done as [|x d IHd]; cbn; [reflexivity|now rewrite IHd].
+Qed.
+
+Lemma nlen_snoc {A} (l : list A) x : nlen l + 1 = nlen (l ++ [x]).
+Proof. rewrite nlen_app; reflexivity. Qed.
+
+(* one iteration of the loop over newRoots *)
+Lemma v2_upserts_cons stored done old r new :
+  v2_upserts stored (tbl_of (done ++ old)) (nlen done) old (r :: new) None =
+  if (match old with o :: _ => o =? r | [] => false end) || mem r stored
+  then v2_upserts stored (tbl_of ((done ++ [r]) ++ tl old)) (nlen (done ++ [r])) (tl old) new None
+  else Err EOther.
+Proof.
+  cbn [v2_upserts]. destruct old as [|o old]; cbn [tl orb].
+  - cbn [mbind stmt]. destruct (mem r stored); cbn [negb mbind lift stmt]; [|reflexivity].
+    rewrite !app_nil_r, tupsert_of_end, (nlen_snoc done r). reflexivity.
+  - destruct (o =? r) eqn:E; cbn [orb].
+    + apply N.eqb_eq in E; subst o. rewrite (nlen_snoc done r), <- app_assoc. reflexivity.
+    + cbn [mbind stmt]. destruct (mem r stored); cbn [negb mbind lift stmt]; [|reflexivity].
+      rewrite tupsert_of_lt by (rewrite nlen_app, nlen_cons; lia).
+      rewrite set_root_mid, (nlen_snoc done r). reflexivity.
+Qed.
+
 Lemma v2_upserts_char stored : forall new done old t k,
   v2_upserts stored (tbl_of (done ++ old)) (nlen done) old new None = Ok (t, k) ->
   t = tbl_of ((done ++ new) ++ skipn (length new) old) /\ k = None.
 Proof.
   induction new as [|r new IH]; intros done old t k H.
   - cbn in H. injection H as <- <-. rewrite app_nil_r. cbn [length skipn]. auto.
-  - cbn [v2_upserts] in H.
-    destruct old as [|o old].
-    + cbn [tl] in H. cbn [mbind stmt] in H.
-      destruct (mem r stored); cbn [negb lift] in H; [|discriminate].
-      rewrite app_nil_r in H. rewrite tupsert_of_end in H.
-      replace (nlen done + 1) with (nlen (done ++ [r])) in H by (rewrite nlen_app; reflexivity).
-      replace (done ++ [r]) with ((done ++ [r]) ++ []) in H at 1 by apply app_nil_r.
-      apply IH in H. rewrite <- app_assoc in H. cbn [app] in H.
-      cbn [length skipn]. rewrite skipn_nil in H. exact H.
-    + cbn [tl] in H. destruct (o =? r) eqn:E.
-      * apply N.eqb_eq in E; subst o.
-        replace (nlen done + 1) with (nlen (done ++ [r])) in H by (rewrite nlen_app; reflexivity).
-        replace (done ++ r :: old) with ((done ++ [r]) ++ old) in H by (rewrite <- app_assoc; reflexivity).
-        apply IH in H. rewrite <- app_assoc in H. exact H.
-      * cbn [mbind stmt] in H.
-        destruct (mem r stored); cbn [negb lift] in H; [|discriminate].
-        assert (Hi : nlen done < nlen (done ++ o :: old)) by (rewrite nlen_app, nlen_cons; lia).
-        rewrite tupsert_of_lt in H by exact Hi.
-        assert (Hs : set_root (done ++ o :: old) (nlen done) r = (done ++ [r]) ++ old).
-        { unfold set_root, nlen. rewrite Nat2N.id.
-          clear. induction done as [|x d IHd]; cbn; [reflexivity|now rewrite IHd]. }
-        rewrite Hs in H.
-        replace (nlen done + 1) with (nlen (done ++ [r])) in H by (rewrite nlen_app; reflexivity).
-        apply IH in H. rewrite <- app_assoc in H. exact H.
+  - rewrite v2_upserts_cons in H.
+    destruct ((match old with o :: _ => o =? r | [] => false end) || mem r stored); [|discriminate].
+    apply IH in H.
+    replace (skipn (length (r :: new)) old) with (skipn (length new) (tl old)).
+    { replace ((done ++ r :: new) ++ skipn (length new) (tl old))
+        with (((done ++ [r]) ++ new) ++ skipn (length new) (tl old)); [exact H|].
+      rewrite <- !app_assoc. reflexivity. }
+    destruct old; cbn [tl length skipn]; [now rewrite skipn_nil|reflexivity].
 Qed.
 
 Lemma v2_upserts_ok stored : forall new done old,
@@ -155,41 +166,34 @@ Proof.
   induction new as [|r new IH]; intros done old S.
   - eexists; reflexivity.
   - cbn [all_stored forallb] in S. apply andb_true_iff in S as [Sr S].
-    cbn [v2_upserts]. destruct old as [|o old]; cbn [tl].
-    + cbn [mbind stmt]. rewrite Sr; cbn [negb].
-      rewrite app_nil_r, tupsert_of_end.
-      replace (nlen done + 1) with (nlen (done ++ [r])) by (rewrite nlen_app; reflexivity).
-      replace (done ++ [r]) with ((done ++ [r]) ++ []) at 1 by apply app_nil_r.
-      now apply IH.
-    + destruct (o =? r) eqn:E.
-      * apply N.eqb_eq in E; subst o.
-        replace (nlen done + 1) with (nlen (done ++ [r])) by (rewrite nlen_app; reflexivity).
-        replace (done ++ r :: old) with ((done ++ [r]) ++ old) by (rewrite <- app_assoc; reflexivity).
-        now apply IH.
-      * cbn [mbind stmt]. rewrite Sr; cbn [negb].
-        assert (Hi : nlen done < nlen (done ++ o :: old)) by (rewrite nlen_app, nlen_cons; lia).
-        rewrite tupsert_of_lt by exact Hi.
-        assert (Hs : set_root (done ++ o :: old) (nlen done) r = (done ++ [r]) ++ old).
-        { unfold set_root, nlen. rewrite Nat2N.id.
-          clear. induction done as [|x d IHd]; cbn; [reflexivity|now rewrite IHd]. }
-        rewrite Hs.
-        replace (nlen done + 1) with (nlen (done ++ [r])) by (rewrite nlen_app; reflexivity).
-        now apply IH.
+    rewrite v2_upserts_cons, Sr, orb_true_r. now apply IH.
+Qed.
+
+Lemma v2_diff_unfold stored old new :
+  v2_diff stored (tbl_of old) old new None =
+  match v2_upserts stored (tbl_of old) 0 old new None with
+  | Ok (t', None) => Ok (if nlen new <? nlen old then tcut (nlen new) t' else t', None)
+  | Ok (t', Some k) => v2_diff stored (tbl_of old) old new None
+  | Err e => Err e
+  | Panic => Panic
+  end.
+Proof.
+  unfold v2_diff at 1, mbind. cbn [stmt].
+  destruct (v2_upserts stored (tbl_of old) 0 old new None) as [[t' [k|]]|e|] eqn:E; try reflexivity.
+  - unfold v2_diff, mbind. cbn [stmt]. rewrite E. reflexivity.
+  - destruct (nlen new <? nlen old); reflexivity.
 Qed.
 
 Lemma v2_diff_ok_inv stored old new t k :
   v2_diff stored (tbl_of old) old new None = Ok (t, k) -> t = tbl_of new /\ k = None.
 Proof.
-  unfold v2_diff. cbn [mbind stmt].
+  rewrite v2_diff_unfold.
   destruct (v2_upserts stored (tbl_of old) 0 old new None) as [[t' k']| |] eqn:E; try discriminate.
   apply (v2_upserts_char stored new [] old) in E. destruct E as [-> ->]. cbn [app].
-  destruct (nlen new <? nlen old) eqn:L; cbn [mbind stmt ret].
-  - intros [= <- <-]. split; [|reflexivity].
-    rewrite <- (firstn_skipn (length new) old) at 1.
-    assert (nlen new = nlen (new)) by reflexivity.
-    apply tcut_of_app.
-  - intros [= <- <-]. split; [|reflexivity].
-    rewrite skipn_all2 by (unfold nlen in L; lia). now rewrite app_nil_r.
+  intros [= <- <-]. split; [|reflexivity].
+  destruct (nlen new <? nlen old) eqn:L.
+  - apply tcut_of_app.
+  - rewrite skipn_all2 by (unfold nlen in L; lia). now rewrite app_nil_r.
 Qed.
 
 Lemma v2_diff_correct stored old new :
@@ -198,11 +202,8 @@ Lemma v2_diff_correct stored old new :
 Proof.
   intros S. destruct (v2_upserts_ok stored new [] old S) as (t & Ht).
   cbn [app nlen length N.of_nat] in Ht.
-  assert (E : exists k, v2_diff stored (tbl_of old) old new None = Ok (
-     (if nlen new <? nlen old then tcut (nlen new) t else t), k)).
-  { unfold v2_diff. cbn [mbind stmt]. rewrite Ht.
-    destruct (nlen new <? nlen old); cbn [mbind stmt ret]; eexists; reflexivity. }
-  destruct E as (k & E). pose proof (v2_diff_ok_inv _ _ _ _ _ E) as [-> ->]. exact E.
+  pose proof (v2_diff_unfold stored old new) as U. rewrite Ht in U.
+  pose proof (v2_diff_ok_inv _ _ _ _ _ U) as [E _]. now rewrite E in U.
 Qed.
 
 (** * injected failures *)
@@ -266,24 +267,31 @@ Proof. unfold store_renew2; fok_tac. Qed.
 Lemma fok_store_get t id : fok (store_get t id).
 Proof. unfold store_get; fok_tac. Qed.
 
+Ltac fok_tac2 :=
+  repeat first
+    [ apply fok_store_revise1 | apply fok_store_renew1 | apply fok_store_revise2
+    | apply fok_store_renew2 | apply fok_store_get | apply fok_lift | apply fok_ret
+    | apply fok_bind; [|intros ?]
+    | match goal with
+      | |- fok (if ?b then _ else _) => destruct b
+      | |- fok (match ?x with _ => _ end) => destruct x
+      end ].
+
 Lemma fok_m_commit1 s x nrev nfsize nmroot : fok (m_commit1 s x nrev nfsize nmroot).
 Proof. apply fok_store_revise1. Qed.
 
 Lemma fok_m_renew1 s old new crev cfsize cmroot nrev nfsize nmroot nws mold :
   fok (m_renew1 s old new crev cfsize cmroot nrev nfsize nmroot nws mold).
-Proof. unfold m_renew1. pose proof fok_store_renew1. fok_tac. Qed.
+Proof. unfold m_renew1. fok_tac2. Qed.
 
 Lemma fok_m_revise2 s id c newroots mnew rsig hsig : fok (m_revise2 s id c newroots mnew rsig hsig).
 Proof.
-  unfold m_revise2. apply fok_bind; [apply fok_store_get|intros e].
-  pose proof fok_store_revise2. fok_tac.
+  unfold m_revise2. fok_tac2.
 Qed.
 
 Lemma fok_m_renew2 s old new c mold wf : fok (m_renew2 s old new c mold wf).
 Proof.
-  unfold m_renew2. destruct (negb wf); [apply fok_lift|].
-  apply fok_bind; [apply fok_store_get|intros e].
-  pose proof fok_store_renew2. fok_tac.
+  unfold m_renew2. fok_tac2.
 Qed.
 
 (* the shape every faulted operation has *)
